@@ -101,7 +101,7 @@ func runOp(c lib.Case, st *filesystem.Storage, objs []*b11repo.Obj) error {
 		if err != nil {
 			return err
 		}
-		_, err = w.Commit(c.S("msg"), &git.CommitOptions{AllowEmptyCommits: true,
+		_, err = w.Commit(c.S("msg")+"\n", &git.CommitOptions{AllowEmptyCommits: true,
 			Author: &object.Signature{Name: "A", Email: "a@example.org", When: time.Unix(1000000000, 0).UTC()}})
 		return err
 	case "repack", "prune":
